@@ -9,5 +9,6 @@ import PeptVerif.Props.C03
 #print axioms Pept.C03.estimate_comp_mass
 #print axioms Pept.C03.comp_estimate_mass
 #print axioms Pept.C03.mass_eq_compMass_partial
+#print axioms Pept.C03.mass_eq_compMass_static
 #print axioms Pept.C03.epsilon_bound
 #print axioms Pept.C03.mass_label_path
